@@ -106,11 +106,13 @@ fn ok<T: TypeInfo + 'static>() { let _ = T::type_info(); }
 pub trait Cfg: TypeInfo + 'static { type A: TypeInfo + 'static; }      // T gets TypeInfo from the supertrait
 impl Cfg for u8 { type A = u16; }
 """
-OTHER = {"assoc": "T::A", "qassoc": "<T as Cfg>::A", "vec": "Vec<T>"}
+OTHER = {"assoc": "T::A", "qassoc": "<T as Cfg>::A", "vec": "Vec<T>", "arr": "[T; 2]", "lifetime": None}      # lifetime: a predicate that bounds no type at all
 
 def item_src(it):
     k = it["k"]
-    if k == "bounds": return "bounds(%s)" % ", ".join("%s: ::scale_info::TypeInfo + 'static" % p for p in [OTHER[o] for o in it.get("other", [])] + list(it["ps"]))
+    if k == "bounds":
+        preds = ["'static: 'static" if OTHER[o] is None else "%s: ::scale_info::TypeInfo + 'static" % OTHER[o] for o in it.get("other", [])]
+        return "bounds(%s)" % ", ".join(preds + ["%s: ::scale_info::TypeInfo + 'static" % p for p in it["ps"]])
     if k == "skip_type_params": return "skip_type_params(%s)" % ", ".join(it["ps"])
     if k == "capture_docs": return 'capture_docs = "%s"' % it["val"]
     if k == "crate": return "crate = ::scale_info"
